@@ -9,13 +9,12 @@ package main
 import (
 	"fmt"
 	"math"
-	"os"
 	"runtime/debug"
-	"runtime/pprof"
 	"sort"
 	"strconv"
 	"strings"
 	"sync"
+	"time"
 
 	rt "github.com/arnodel/golua/runtime"
 
@@ -400,32 +399,14 @@ func strFamilies(tier string) []*core.Family {
 				}
 				return []lv.V{lv.I(a), lv.I(b)}
 			}
-			// classify recognises one specific wrong answer: the indices of a
-			// correct occurrence counted from init instead of from the start
-			// of the subject.
-			relInit := func(init int64) func(string, []rt.Value) string {
-				return func(st string, res []rt.Value) string {
-					a, b, ok := refstr19.Find(s, nd, init)
-					p := refstr19.Translate(int64(len(s)), init)
-					if st != "ok" || !ok || len(res) != 2 || p <= 1 {
-						return ""
-					}
-					x, okx := res[0].TryInt()
-					y, oky := res[1].TryInt()
-					if okx && oky && x == a-(p-1) && y == b-(p-1) {
-						return "indices-relative-to-init"
-					}
-					return ""
-				}
-			}
 			// the needle alphabet contains no magic character, so the needle as
 			// a pattern matches exactly itself (§6.4.1 "a single character class
 			// matches any single character in the class"; x "represents the
 			// character x itself").
 			c.callStr(e, fmt.Sprintf("find s=%q needle=%q", s, nd), "find", []rt.Value{sv(s), sv(nd)}, want(1), false, nil)
 			for _, p := range P {
-				c.callStr(e, fmt.Sprintf("find plain s=%q needle=%q init=%d", s, nd, p), "find", []rt.Value{sv(s), sv(nd), iv(p), rt.BoolValue(true)}, want(p), false, relInit(p))
-				c.callStr(e, fmt.Sprintf("find s=%q needle=%q init=%d", s, nd, p), "find", []rt.Value{sv(s), sv(nd), iv(p)}, want(p), false, relInit(p))
+				c.callStr(e, fmt.Sprintf("find plain s=%q needle=%q init=%d", s, nd, p), "find", []rt.Value{sv(s), sv(nd), iv(p), rt.BoolValue(true)}, want(p), false, findRelInit(s, nd, p))
+				c.callStr(e, fmt.Sprintf("find s=%q needle=%q init=%d", s, nd, p), "find", []rt.Value{sv(s), sv(nd), iv(p)}, want(p), false, findRelInit(s, nd, p))
 			}
 			return c.out()
 		}})
@@ -475,8 +456,8 @@ func strFamilies(tier string) []*core.Family {
 	for _, n := range []int64{math.MaxInt64, 1 << 31, 1 << 32, 1<<63 - 2} {
 		xs = append(xs, repx{"", n, false, ""}, repx{"a", n, false, ""}, repx{"ab", n, true, ","}, repx{"", n, true, "x"})
 	}
-	repFam := func(name string, xs []repx, hang int) *core.Family {
-		return &core.Family{Name: name, Size: uint64(len(xs)), Serial: true, HangSeconds: hang,
+	repFam := func(name string, xs []repx, detached bool) *core.Family {
+		return &core.Family{Name: name, Size: uint64(len(xs)), Serial: true, HangSeconds: 60,
 			Show: func(i uint64) string {
 				x := xs[i]
 				if !x.hasSep {
@@ -494,7 +475,33 @@ func strFamilies(tier string) []*core.Family {
 					args = append(args, sv(x.sep))
 					key += fmt.Sprintf(" sep=%q", x.sep)
 				}
-				st, res, errs := call(e.m, e.str["rep"], args, cpuMemCtx)
+				var st, errs string
+				var res []rt.Value
+				if !detached {
+					st, res, errs = call(e.m, e.str["rep"], args, cpuMemCtx)
+				} else {
+					// run on a machine of its own in another goroutine and give
+					// up after 5 s (see the comment at str-rep-empty-huge)
+					type out struct {
+						st, errs string
+						res      []rt.Value
+					}
+					ch := make(chan out, 1)
+					go func() {
+						m := host.NewMachine(false)
+						fn := m.R.GlobalEnv().Get(rt.StringValue("string")).AsTable().Get(rt.StringValue("rep"))
+						a, b, c := call(m, fn, args, cpuMemCtx)
+						ch <- out{a, c, b}
+					}()
+					select {
+					case o := <-ch:
+						st, res, errs = o.st, o.res, o.errs
+					case <-time.After(5 * time.Second):
+						c.sig.WriteString("no answer")
+						c.bad(key+" clause=terminates", fmt.Sprintf("string.rep%s is the empty string; the call (cpu limit 1e7, memory limit 64M) neither returned nor was killed within 5 s of wall time", canonVals(args)))
+						return c.out()
+					}
+				}
 				got := obsStr(st, res, errs)
 				if len(got) > 200 {
 					got = got[:200]
@@ -510,13 +517,17 @@ func strFamilies(tier string) []*core.Family {
 				return c.out()
 			}}
 	}
-	fams = append(fams, repFam("str-rep-extreme", xs, 60))
-	// string.rep("", maxinteger, "") is the empty string.  golua's loop over n
-	// charges no CPU when both strings are empty, so the CPU limit cannot end
-	// it: if the implementation iterates n times the worker's hang watchdog
-	// fires (key "str-rep-empty-huge hang>10s unknown").  This is the only case
-	// of the check that relies on the watchdog.
-	fams = append(fams, repFam("str-rep-empty-huge", []repx{{"", math.MaxInt64, true, ""}}, 10))
+	fams = append(fams, repFam("str-rep-extreme", xs, false))
+	// string.rep("", maxinteger, "") is the empty string.  A loop over n that
+	// charges no CPU (both strings are empty, nothing is allocated) cannot be
+	// ended by the CPU limit, and a case that never returns would also block
+	// the driver's replay of the violation.  So this single case runs detached
+	// with a wall-clock guard: a correct implementation answers in
+	// microseconds, one that iterates 2^63 times never does; 5 s separates the
+	// two by more than six orders of magnitude.  It is the only time-based
+	// verdict of the check.  The abandoned goroutine dies with the process
+	// (the family has one case and runs in a worker of its own).
+	fams = append(fams, repFam("str-rep-empty-huge", []repx{{"", math.MaxInt64, true, ""}}, true))
 
 	// char
 	cv := []int64{65, 0, 255, 1, 256, -1, math.MaxInt64, math.MinInt64}
@@ -1030,7 +1041,7 @@ func tabFamilies(tier string) []*core.Family {
 
 	// unpack of very many values: an error (or a killed context), or the right
 	// values; never a crash.
-	bigJ := []int64{1e7, 1 << 31, 1 << 32, math.MaxInt64, 100000}
+	bigJ := []int64{200, 255, 256, 1000, 100000, 1e7, 1 << 31, 1 << 32, math.MaxInt64}
 	fams = append(fams, &core.Family{Name: "tab-unpack-big", Size: uint64(len(bigJ)) * nKinds * 2, HangSeconds: 60,
 		Show: func(i uint64) string {
 			d := dec(i, nKinds, 2, uint64(len(bigJ)))
@@ -1380,7 +1391,7 @@ func sortFamilies(tier string) []*core.Family {
 	// all 0/1 sequences of lengths above Go's insertion-sort threshold
 	lo, hi := 13, 14
 	if tier == "thorough" {
-		hi = 17
+		hi = 16
 	}
 	var boffs []uint64
 	tot := uint64(0)
@@ -1419,7 +1430,7 @@ func sortFamilies(tier string) []*core.Family {
 
 	maxLen := uint64(130)
 	if tier == "thorough" {
-		maxLen = 600
+		maxLen = 300
 	}
 	nPat := uint64(len(patNames))
 	patModes := append(append([]cmpMode{}, cmpModes[:8]...), cmpMode{"raise", 50, false, ltI}, cmpMode{"yield", 7, false, ltI})
@@ -1513,40 +1524,28 @@ func sortFamilies(tier string) []*core.Family {
 func families(tier string) []*core.Family {
 	var fams []*core.Family
 	fams = append(fams, strFamilies(tier)...)
+	fams = append(fams, findMagicFamily(tier), floatArgsFamily())
 	fams = append(fams, tabFamilies(tier)...)
+	fams = append(fams, edgeFamilies(tier)...)
 	fams = append(fams, sortFamilies(tier)...)
 	return fams
 }
 
 func main() {
-	if pp := os.Getenv("C19_PPROF"); pp != "" {
-		debug.SetGCPercent(2000)
-		f, _ := os.Create(pp)
-		pprof.StartCPUProfile(f)
-		fam := families("quick")
-		for _, ff := range fam {
-			if ff.Name == os.Getenv("C19_PPROF_FAM") {
-				for i := uint64(0); i < ff.Size; i += 100 {
-					ff.Run(i)
-				}
-			}
-		}
-		pprof.StopCPUProfile()
-		f.Close()
-		return
-	}
 	core.Main(&core.Check{
 		ID:    "C19",
 		Level: "model_checking",
-		Rule: "string.sub/byte/char/rep/reverse/upper/lower/len/find(plain) over every string up to the length bound over a small byte alphabet x every position (pair) of {mininteger, -len-2..len+2, maxinteger}; " +
-			"table.insert/remove/move/concat/unpack/pack over every sequence up to the length bound x the same positions, on a plain table and on two proxy tables (function and table valued __index/__newindex, __len); " +
-			"table.sort over every arrangement of every small multiset x 14 comparison modes. Each case is compared with refstr19/reftab (written from the manual). " +
+		Rule: "string.sub/byte/char/rep/reverse/upper/lower/len/find(plain and magic-free patterns) over every string up to the length bound over a small byte alphabet x every position (pair) of {mininteger, -len-2..len+2, maxinteger}, plain find also over needles made of magic characters, upper/lower over every 1-byte (thorough: 2-byte) string; " +
+			"table.insert/remove/move/concat/unpack/pack over every sequence up to the length bound x the same positions, on a plain table and on two proxy tables (function and table valued __index/__newindex, __len), move/unpack/concat also over ranges touching mininteger/maxinteger on a table with elements there; " +
+			"table.sort over every arrangement of every small multiset x 14 comparison modes (valid orders, inconsistent, raising, yielding), all 0/1 sequences of length 13.., structured inputs up to a few hundred elements. Each case is compared with refstr19/reftab (written from the manual); every table call runs under a CPU limit. " +
 			"non-trivial = every case; distinct = distinct observed result vectors",
 		Assumptions: []string{
-			"reference: refstr19 and reftab (plain Go, from manual §6.4 and §6.6); the locale is the C locale (golua's os.setlocale only accepts \"C\")",
-			"calls the manual does not define (insert/remove position outside the stated range, move whose element count or destination does not fit an integer, wrong argument counts) may raise an error or return anything but must end; calls whose defined result is too large to build (rep, unpack, move of more than 64 elements) may fail",
+			"reference: refstr19 and reftab (plain Go, from manual §6.4 and §6.6); the locale is the C locale (golua's os.setlocale only accepts \"C\"); upper/lower of a string containing a well-formed multi-byte UTF-8 sequence is treated as locale dependent and not compared",
+			"calls the manual does not define (insert/remove position outside the stated range, move whose element count or destination does not fit an integer, wrong argument counts) may raise an error or return anything but must end; calls whose defined result is too large to build (rep, unpack, move of more than 64 elements) may fail or be killed by the CPU limit",
 			"the number and order of metamethod accesses on proxy tables is not compared, only results and final contents",
-			"with an inconsistent comparison function table.sort may raise an error or leave any permutation",
+			"with an inconsistent comparison function table.sort may raise an error or leave any permutation, but must end within the CPU limit with all elements present",
+			"final table contents are read through the verif hook Table.VerifLayout, not through next (C03's subject)",
+			"one case (string.rep(\"\", maxinteger, \"\")) uses a 5 s wall-clock guard because a loop that charges no CPU cannot be ended by the CPU limit",
 		},
 		Families: families,
 		// the live heap of a worker is tiny; with the default GOGC the collector
